@@ -57,6 +57,7 @@ type handler1 struct {
 	// reused in the session, hence the state is final.
 	topicIDsDepleted uint32
 	pktBuffer        []snPkts.Packet
+	pktBufferLock    sync.Mutex // guards pktBuffer and the sleep/wake-up state changes
 	stopPinger       context.CancelFunc // stops the sleep pinger of the current sleep period
 	group            *errgroup.Group
 	transactions     *transactions.TransactionStore
@@ -561,13 +562,16 @@ func (h *handler1) handleConnect(ctx context.Context, snConnect *snPkts1.Connect
 	if state := h.state.Get(); state == util.StateAwake || state == util.StateAsleep {
 		// An active client keeps the connection alive itself.
 		h.stopSleepPinger()
+		// Packets from the broker (other goroutine) must not get in between.
+		h.pktBufferLock.Lock()
+		defer h.pktBufferLock.Unlock()
 		h.setState(util.StateActive)
 		reply := snPkts1.NewConnack(snPkts1.RC_ACCEPTED)
-		if err := h.snSend(reply); err != nil {
+		if err := h.snSendNow(reply); err != nil {
 			return err
 		}
 		for _, pkt := range h.pktBuffer {
-			if err := h.snSend(pkt); err != nil {
+			if err := h.snSendNow(pkt); err != nil {
 				return err
 			}
 		}
@@ -833,24 +837,28 @@ func (h *handler1) handleMqttSn(ctx context.Context, pkt snPkts.Packet) error {
 
 	// Client PING transaction (going AWAKE or just a keepalive).
 	case *snPkts1.Pingreq:
+		// The whole wake-up is atomic with respect to packets from the
+		// broker (other goroutine): they are either delivered now or
+		// queued for the next wake-up.
+		h.pktBufferLock.Lock()
 		if h.state.Get() == util.StateAsleep {
-			// Must be set before snSend otherwise the packets will be queued...
+			defer h.pktBufferLock.Unlock()
 			h.setState(util.StateAwake)
 			for _, m2 := range h.pktBuffer {
-				if err := h.snSend(m2); err != nil {
+				if err := h.snSendNow(m2); err != nil {
 					return err
 				}
 			}
 			h.pktBuffer = nil
-			if err := h.snSend(snPkts1.NewPingresp()); err != nil {
+			if err := h.snSendNow(snPkts1.NewPingresp()); err != nil {
 				return err
 			}
 			// The client returns to the asleep state after PINGRESP.
 			// See MQTT-SN specification v. 1.2, chapter 6.14
-			// Must be set after snSend otherwise the packet will be queued...
 			h.setState(util.StateAsleep)
 			return nil
 		} else {
+			h.pktBufferLock.Unlock()
 			mqPkt := mqPkts.NewControlPacket(mqPkts.Pingreq).(*mqPkts.PingreqPacket)
 			return h.mqttSend(mqPkt)
 		}
@@ -876,6 +884,8 @@ func (h *handler1) handleMqttSn(ctx context.Context, pkt snPkts.Packet) error {
 				h.stopPinger = cancelPinger
 				time.AfterFunc(time.Duration(snPkt.Duration)*time.Second, cancelPinger)
 			}
+			h.pktBufferLock.Lock()
+			defer h.pktBufferLock.Unlock()
 			h.pktBuffer = nil
 			m2 := snPkts1.NewDisconnect(0)
 			// The client is waiting for the reply: it must not be queued, even
@@ -960,12 +970,15 @@ func (h *handler1) startSleepPinger(ctx context.Context) context.CancelFunc {
 }
 
 func (h *handler1) snSend(pkt snPkts.Packet) error {
+	h.pktBufferLock.Lock()
 	if h.state.Get() == util.StateAsleep {
 		h.log.Debug("Queued %v", pkt)
 		h.pktBuffer = append(h.pktBuffer, pkt)
+		h.pktBufferLock.Unlock()
 		// TODO: Potentional serialization errors will be delayed!
 		return nil
 	}
+	h.pktBufferLock.Unlock()
 	return h.snSendNow(pkt)
 }
 
